@@ -226,6 +226,8 @@ structure OpsInv (s : St) : Prop where
   closed : ∀ (c : Nat) (pc : CPc), s.closers[c]? = some pc → pc ≠ CPc.idle → s.isClosed = true
   closerRet : ∀ c : Nat, s.closers[c]? = some CPc.returned → s.busy = none
   done : DoneInv s.doners s.doneSnap s.accepted s.executed
+  fresh : ∀ k : Nat, Item.check k ∈ s.accepted → k < s.checks
+  noSw : WPc.cbDone ∉ s.workers
 
 theorem OpsInv.live_le {s : St} (h : OpsInv s) : liveL s.workers ≤ 1 := by
   rw [h.live]; split <;> omega
@@ -237,7 +239,9 @@ theorem getElem?_replicate_eq {α} {n i : Nat} {a b : α} (h : (List.replicate n
   · cases h; rfl
   · cases h
 
-theorem opsInv_init (nc nd : Nat) : OpsInv (init nc nd) where
+theorem opsInv_init (nc nd nn : Nat) : OpsInv (init nc nd nn) where
+  fresh := by simp [init]
+  noSw := by simp [init]
   fifo := by simp [init]
   live := by simp [init]
   idleQ := by simp [init]
@@ -268,7 +272,7 @@ theorem OpsInv.with_done {s : St} (h : OpsInv s) (ds : List DPc) (sn : List (Lis
     (hd : DoneInv ds sn s.accepted s.executed) :
     OpsInv { s with doners := ds, doneSnap := sn } :=
   { fifo := h.fifo, live := h.live, idleQ := h.idleQ, nodup := h.nodup, closed := h.closed,
-    closerRet := h.closerRet, done := hd }
+    closerRet := h.closerRet, done := hd, fresh := h.fresh, noSw := h.noSw }
 
 theorem OpsInv.with_doners {s : St} (h : OpsInv s) (ds : List DPc)
     (hd : DoneInv ds s.doneSnap s.accepted s.executed) :
@@ -287,18 +291,26 @@ theorem OpsInv.with_closers {s : St} (h : OpsInv s) (cs : List CPc)
     (h2 : ∀ c : Nat, cs[c]? = some CPc.returned → s.busy = none) :
     OpsInv { s with closers := cs } :=
   { fifo := h.fifo, live := h.live, idleQ := h.idleQ, nodup := h.nodup, closed := h1,
-    closerRet := h2, done := h.done }
+    closerRet := h2, done := h.done, fresh := h.fresh, noSw := h.noSw }
 
 theorem OpsInv.with_closed {s : St} (h : OpsInv s) :
     OpsInv { s with isClosed := true } :=
   { fifo := h.fifo, live := h.live, idleQ := h.idleQ, nodup := h.nodup,
     closed := fun _ _ _ _ => rfl,
-    closerRet := h.closerRet, done := h.done }
+    closerRet := h.closerRet, done := h.done, fresh := h.fresh, noSw := h.noSw }
 
-theorem OpsInv.with_flag {s : St} (h : OpsInv s) (b : Bool) (n : Nat) :
-    OpsInv { s with flag := b, negCalls := n } :=
+/-- the invariant does not mention the flag, the callback counter, the API callers or the ghost log -/
+theorem OpsInv.with_aux {s : St} (h : OpsInv s) (b : Bool) (n : Nat) (cs : List NPc) (lg : List NegEv)
+    (u : Bool := s.unseen) :
+    OpsInv { s with flag := b, negCalls := n, callers := cs, negLog := lg, unseen := u } :=
   { fifo := h.fifo, live := h.live, idleQ := h.idleQ, nodup := h.nodup, closed := h.closed,
-    closerRet := h.closerRet, done := h.done }
+    closerRet := h.closerRet, done := h.done, fresh := h.fresh, noSw := h.noSw }
+
+theorem OpsInv.with_checks {s : St} (h : OpsInv s) :
+    OpsInv { s with checks := s.checks + 1 } :=
+  { fifo := h.fifo, live := h.live, idleQ := h.idleQ, nodup := h.nodup, closed := h.closed,
+    closerRet := h.closerRet, done := h.done, noSw := h.noSw,
+    fresh := fun k hk => Nat.lt_succ_of_lt (h.fresh k hk) }
 
 /-! ### `tryEnqueue` -/
 
@@ -322,7 +334,8 @@ theorem tryEnqueue_frame (s : St) (it : Item) :
   · dsimp only
     split <;> simp
 
-theorem opsInv_tryEnqueue {s : St} (h : OpsInv s) (it : Item) (hn : it ∉ s.accepted) :
+theorem opsInv_tryEnqueue {s : St} (h : OpsInv s) (it : Item) (hn : it ∉ s.accepted)
+    (hc : ∀ k, it = Item.check k → k < s.checks) :
     OpsInv (tryEnqueue s it).1 := by
   unfold tryEnqueue
   split
@@ -344,6 +357,12 @@ theorem opsInv_tryEnqueue {s : St} (h : OpsInv s) (it : Item) (hn : it ∉ s.acc
       have := h.closed c pc hc hne
       rw [hcl'] at this
       cases this
+    have hfresh : ∀ k : Nat, Item.check k ∈ s.accepted ++ [it] → k < s.checks := by
+      intro k hk
+      rcases List.mem_append.mp hk with h1 | h1
+      · exact h.fresh k h1
+      · simp at h1
+        exact hc k h1.symm
     split
     · rename_i g hb
       exact
@@ -358,7 +377,9 @@ theorem opsInv_tryEnqueue {s : St} (h : OpsInv s) (it : Item) (hn : it ∉ s.acc
           nodup := hnd
           closed := fun c pc hc hne => (hcl1 c pc hc hne).elim
           closerRet := fun c hc => (hcl1 c _ hc (by simp)).elim
-          done := h.done.snoc_acc [it] }
+          done := h.done.snoc_acc [it]
+          fresh := hfresh
+          noSw := h.noSw }
     · rename_i hb
       have hl := h.live
       rw [hb] at hl
@@ -377,13 +398,60 @@ theorem opsInv_tryEnqueue {s : St} (h : OpsInv s) (it : Item) (hn : it ∉ s.acc
           nodup := hnd
           closed := fun c pc hc hne => (hcl1 c pc hc hne).elim
           closerRet := fun c hc => (hcl1 c _ hc (by simp)).elim
-          done := h.done.snoc_acc [it] }
+          done := h.done.snoc_acc [it]
+          fresh := hfresh
+          noSw := by
+            show WPc.cbDone ∉ s.workers ++ [.start]
+            simp [h.noSw] }
+
+theorem tryEnqueue_workers_get {s : St} (it : Item) {w : Nat} {pc : WPc} (hw : s.workers[w]? = some pc) :
+    (tryEnqueue s it).1.workers[w]? = some pc := by
+  have hlt : w < s.workers.length := by
+    rcases Nat.lt_or_ge w s.workers.length with h | h
+    · exact h
+    · rw [List.getElem?_eq_none h] at hw; cases hw
+  unfold tryEnqueue
+  split
+  · exact hw
+  · dsimp only
+    split
+    · exact hw
+    · show (s.workers ++ [.start])[w]? = some pc
+      rw [List.getElem?_append_left hlt]; exact hw
+
+theorem opsInv_enqCheck {s : St} (h : OpsInv s) : OpsInv (enqCheck s) := by
+  unfold enqCheck
+  refine opsInv_tryEnqueue h.with_checks _ ?_ ?_
+  · intro hm
+    exact Nat.lt_irrefl _ (h.fresh _ hm)
+  · intro k hk
+    cases hk
+    exact Nat.lt_succ_self _
+
+theorem enqCheck_workers_get {s : St} {w : Nat} {pc : WPc} (hw : s.workers[w]? = some pc) :
+    (enqCheck s).workers[w]? = some pc := by
+  unfold enqCheck
+  exact tryEnqueue_workers_get _ hw
+
+theorem opsInv_negApply {s : St} (h : OpsInv s) (e : Bool) : OpsInv (negApply s e) := by
+  unfold negApply
+  split
+  · exact opsInv_enqCheck h
+  · exact h.with_aux true s.negCalls s.callers s.negLog true
+
+theorem negApply_workers_get {s : St} (e : Bool) {w : Nat} {pc : WPc} (hw : s.workers[w]? = some pc) :
+    (negApply s e).workers[w]? = some pc := by
+  unfold negApply
+  split
+  · exact enqCheck_workers_get hw
+  · exact hw
 
 /-! ### worker steps -/
 
 /-- a live worker changes its pc to another live pc; `executed`/`queue` move consistently -/
 theorem OpsInv.worker_step {s : St} (h : OpsInv s) {w : Nat} {pc pc' : WPc}
     (hw : s.workers[w]? = some pc) (hl : pc.live = true) (hl' : pc'.live = true)
+    (hsw : pc' ≠ WPc.cbDone)
     (ex : List Item) (q : List Item)
     (hfifo : s.executed ++ heldOf pc ++ s.queue = ex ++ heldOf pc' ++ q)
     (hex : ∀ x, x ∈ s.executed → x ∈ ex) :
@@ -414,9 +482,15 @@ theorem OpsInv.worker_step {s : St} (h : OpsInv s) {w : Nat} {pc pc' : WPc}
       nodup := h.nodup
       closed := h.closed
       closerRet := h.closerRet
-      done := h.done.mono_ex ex hex }
+      done := h.done.mono_ex ex hex
+      fresh := h.fresh
+      noSw := by
+        intro hm
+        rcases List.mem_or_eq_of_mem_set hm with h1 | h1
+        · exact h.noSw h1
+        · exact hsw h1.symm }
 
-theorem step_preserves {s s' : St} {a : Action} (h : OpsInv s) (hs : step s a = some s') :
+theorem step_preserves {m : NegMode} {s s' : St} {a : Action} (h : OpsInv s) (hs : step m s a = some s') :
     OpsInv s' := by
   cases a with
   | enqueue it =>
@@ -425,7 +499,11 @@ theorem step_preserves {s s' : St} {a : Action} (h : OpsInv s) (hs : step s a = 
     · cases hs
     · rename_i hn
       cases hs
-      exact opsInv_tryEnqueue h it hn
+      have hn' : ¬ (it.isCheck = true) ∧ it ∉ s.accepted := by simpa [not_or] using hn
+      refine opsInv_tryEnqueue h it hn'.2 ?_
+      intro k hk
+      subst hk
+      exact absurd rfl hn'.1
   | doneBegin d =>
     simp only [step] at hs
     split at hs
@@ -438,7 +516,7 @@ theorem step_preserves {s s' : St} {a : Action} (h : OpsInv s) (hs : step s a = 
       · cases hs
       · rename_i hn
         cases hs
-        have hinv := opsInv_tryEnqueue h (.waiter d) hn
+        have hinv := opsInv_tryEnqueue h (.waiter d) hn (fun k hk => by cases hk)
         obtain ⟨hdo, hsn, hex⟩ := tryEnqueue_frame s (.waiter d)
         refine hinv.with_done _ _ ?_
         rw [hdo, hsn, hex]
@@ -568,10 +646,10 @@ theorem step_preserves {s s' : St} {a : Action} (h : OpsInv s) (hs : step s a = 
       unfold popQueue
       split
       · rename_i hq
-        exact h.worker_step hw hl (pc' := .popped none) rfl s.executed s.queue
+        exact h.worker_step hw hl (pc' := .popped none) rfl (by simp) s.executed s.queue
           (by rw [hh]; simp [heldOf]) (fun _ hx => hx)
       · rename_i it rest hq
-        exact h.worker_step hw hl (pc' := .popped (some it)) rfl s.executed rest
+        exact h.worker_step hw hl (pc' := .popped (some it)) rfl (by simp) s.executed rest
           (by rw [hh]; simp [heldOf, hq]) (fun _ hx => hx)
     simp only [step] at hs
     split at hs
@@ -587,20 +665,72 @@ theorem step_preserves {s s' : St} {a : Action} (h : OpsInv s) (hs : step s a = 
     split at hs
     · rename_i it hw
       cases hs
-      exact h.worker_step hw rfl (pc' := .running it) rfl (s.executed ++ [it]) s.queue
-        (by simp [heldOf]) (fun _ hx => by simp [hx])
+      exact (h.worker_step hw rfl (pc' := .running it) rfl (by simp) (s.executed ++ [it]) s.queue
+        (by simp [heldOf]) (fun _ hx => by simp [hx])).with_aux s.flag s.negCalls s.callers _
     · cases hs
   | afterLoop w =>
     simp only [step] at hs
     split at hs
     · rename_i hw
-      have := h.worker_step hw rfl (pc' := .defer_) rfl s.executed s.queue
+      cases hs
+      exact (h.worker_step hw rfl (pc' := if s.flag = true then .loaded else .defer_)
+        (by split <;> rfl) (by split <;> simp) s.executed s.queue
+        (by split <;> simp [heldOf]) (fun _ hx => hx)).with_aux s.flag s.negCalls s.callers s.negLog false
+    · cases hs
+  | clearFlag w =>
+    simp only [step] at hs
+    split at hs
+    · rename_i hw
+      cases hs
+      exact (h.worker_step hw rfl (pc' := .cleared) rfl (by simp) s.executed s.queue
+        (by simp [heldOf]) (fun _ hx => hx)).with_aux false s.negCalls s.callers s.negLog
+    · cases hs
+  | cbBegin w =>
+    simp only [step] at hs
+    split at hs
+    · rename_i hw
+      cases m with
+      | none =>
+        cases hs
+        exact (h.worker_step hw rfl (pc' := .defer_) rfl (by simp) s.executed s.queue
+          (by simp [heldOf]) (fun _ hx => hx)).with_aux s.flag (s.negCalls + 1) s.callers s.negLog
+      | enqueue =>
+        cases hs
+        have h1 : OpsInv { s with negCalls := s.negCalls + 1 } :=
+          h.with_aux s.flag (s.negCalls + 1) s.callers s.negLog
+        have h2 := opsInv_enqCheck h1
+        have hw2 : (enqCheck { s with negCalls := s.negCalls + 1 }).workers[w]? = some WPc.cleared :=
+          enqCheck_workers_get (s := { s with negCalls := s.negCalls + 1 }) hw
+        exact h2.worker_step hw2 rfl (pc' := .defer_) rfl (by simp) _ _
+          (by simp [heldOf]) (fun _ hx => hx)
+      | rearm =>
+        cases hs
+        exact (h.worker_step hw rfl (pc' := .cb s.queue.isEmpty) rfl (by simp) s.executed s.queue
+          (by simp [heldOf]) (fun _ hx => hx)).with_aux s.flag (s.negCalls + 1) s.callers _
+    · cases hs
+  | cbAct w =>
+    simp only [step] at hs
+    split at hs
+    · rename_i e hw
+      cases hs
+      have h2 := opsInv_negApply h e
+      have hw2 := negApply_workers_get e hw
+      exact h2.worker_step hw2 rfl (pc' := .defer_) rfl (by simp) _ _
         (by simp [heldOf]) (fun _ hx => hx)
-      split at hs
-      · cases hs
-        exact this.with_flag false (s.negCalls + 1)
-      · cases hs
-        exact this
+    · cases hs
+  | negTest n =>
+    simp only [step] at hs
+    split at hs
+    · cases hs
+      exact h.with_aux s.flag s.negCalls _ _
+    · cases hs
+  | negAct n =>
+    simp only [step] at hs
+    split at hs
+    · rename_i e hn
+      cases hs
+      have h2 := opsInv_negApply h e
+      exact h2.with_aux _ _ _ _
     · cases hs
   | deferred w =>
     simp only [step] at hs
@@ -635,7 +765,13 @@ theorem step_preserves {s s' : St} {a : Action} (h : OpsInv s) (hs : step s a = 
               nodup := h.nodup
               closed := h.closed
               closerRet := fun _ _ => rfl
-              done := h.done }
+              done := h.done
+              fresh := h.fresh
+              noSw := by
+                intro hm
+                rcases List.mem_or_eq_of_mem_set hm with h1 | h1
+                · exact h.noSw h1
+                · cases h1 }
         · rename_i hq
           cases hs
           exact
@@ -654,16 +790,26 @@ theorem step_preserves {s s' : St} {a : Action} (h : OpsInv s) (hs : step s a = 
                 intro c hc
                 have := h.closerRet c hc
                 rw [hb] at this; cases this
-              done := h.done }
+              done := h.done
+              fresh := h.fresh
+              noSw := by
+                show WPc.cbDone ∉ s.workers.set w .fin ++ [.start]
+                intro hm
+                rcases List.mem_append.mp hm with h0 | h0
+                · rcases List.mem_or_eq_of_mem_set h0 with h1 | h1
+                  · exact h.noSw h1
+                  · cases h1
+                · simp at h0 }
     · cases hs
   | setFlag =>
     simp only [step] at hs
     cases hs
-    exact h.with_flag true s.negCalls
+    exact h.with_aux true s.negCalls s.callers _ true
 
-theorem opsInv_of_reachable {nc nd : Nat} {s : St} (h : Reachable nc nd s) : OpsInv s := by
+theorem opsInv_of_reachable {m : NegMode} {nc nd nn : Nat} {s : St} (h : Reachable m nc nd nn s) :
+    OpsInv s := by
   induction h with
-  | init => exact opsInv_init nc nd
+  | init => exact opsInv_init nc nd nn
   | step a _ hs ih => exact step_preserves ih hs
 
 /-! ### corollaries used by the C05 theorems -/
@@ -691,34 +837,42 @@ theorem OpsInv.executed_eq_of_quiescent {s : St} (h : OpsInv s) (hq : quiescent 
   rw [h.fifo, heldL_of_liveL_zero hq', h.idleQ hb]
   simp
 
-theorem OpsInv.worker_enabled {s : St} (h : OpsInv s) (hne : s.executed ≠ s.accepted) :
-    ∃ w, (step s (.pop w)).isSome ∨ (step s (.exec w)).isSome ∨ (step s (.afterLoop w)).isSome
-      ∨ (step s (.deferred w)).isSome := by
-  have hpos : 1 ≤ liveL s.workers := by
-    rcases Nat.eq_zero_or_pos (liveL s.workers) with h0 | h0
-    · exact absurd (h.executed_eq_of_quiescent h0) hne
-    · exact h0
-  obtain ⟨w, pc, hw, hl⟩ := exists_live_of_liveL_pos hpos
-  refine ⟨w, ?_⟩
+/-- a live worker always has an enabled action -/
+theorem OpsInv.live_worker_enabled {s : St} (h : OpsInv s) (m : NegMode) {w : Nat} {pc : WPc}
+    (hw : s.workers[w]? = some pc) (hl : pc.live = true) :
+    ∃ a ∈ workerActions w, (step m s a).isSome = true := by
   cases pc with
-  | start => left; simp [step, hw]
+  | start => exact ⟨.pop w, by simp [workerActions], by simp [step, hw]⟩
   | popped fn =>
     cases fn with
-    | none =>
-      right; right; left
-      simp only [step, hw]
-      split <;> rfl
-    | some it => right; left; simp [step, hw]
-  | running it => left; simp [step, hw]
+    | none => exact ⟨.afterLoop w, by simp [workerActions], by simp [step, hw]⟩
+    | some it => exact ⟨.exec w, by simp [workerActions], by simp [step, hw]⟩
+  | running it => exact ⟨.pop w, by simp [workerActions], by simp [step, hw]⟩
+  | loaded => exact ⟨.clearFlag w, by simp [workerActions], by simp [step, hw]⟩
+  | cleared =>
+    refine ⟨.cbBegin w, by simp [workerActions], ?_⟩
+    cases m <;> simp [step, hw]
+  | cb e => exact ⟨.cbAct w, by simp [workerActions], by simp [step, hw]⟩
+  | cbDone => exact absurd (List.mem_of_getElem? hw) h.noSw
   | defer_ =>
-    right; right; right
+    refine ⟨.deferred w, by simp [workerActions], ?_⟩
     have hl := h.live
+    have hpos := liveL_pos_of_getElem? hw rfl
     cases hb : s.busy with
     | none => rw [hb] at hl; simp at hl; omega
     | some g =>
       simp only [step, hw, hb]
       split <;> rfl
   | fin => cases hl
+
+theorem OpsInv.worker_enabled {s : St} (h : OpsInv s) (m : NegMode) (hne : s.executed ≠ s.accepted) :
+    ∃ w, ∃ a ∈ workerActions w, (step m s a).isSome = true := by
+  have hpos : 1 ≤ liveL s.workers := by
+    rcases Nat.eq_zero_or_pos (liveL s.workers) with h0 | h0
+    · exact absurd (h.executed_eq_of_quiescent h0) hne
+    · exact h0
+  obtain ⟨w, pc, hw, hl⟩ := exists_live_of_liveL_pos hpos
+  exact ⟨w, h.live_worker_enabled m hw hl⟩
 
 theorem OpsInv.snap_length {s : St} (h : OpsInv s) : s.doneSnap.length = s.doners.length :=
   h.done.snapLen
